@@ -195,7 +195,9 @@ def merged_transactions(ctx: Ctx, pid: str):
         if okf and f is not True:
             dit = f[1][1][3][0][1]
             dd = ex.vardef(dit) or dit
-            okf = pmatch("Q_rd[Q_t] & Q_cc", dd) is not None or pmatch("Q_cc & Q_rd[Q_t]", dd) is not None
+            md = pmatch("Q_rd[Q_t] & Q_cc", dd) or pmatch("Q_cc & Q_rd[Q_t]", dd)
+            # the ready dependencies looked up are those of the member that is being called
+            okf = md is not None and md["t"] == tb
         # methods[t] was created from transaction t
         meths = m["methods"]
         sets = [s for s in ex.of(Store) if s.target[0] == "i" and s.target[1] == meths]
